@@ -21,6 +21,7 @@ def run(F, G, tier, seed):
             driver.run(chk, F, G, T)
     nullness.run(chk, F, CG)
     nullness.run_enumidx(chk, F)
+    nullness.run_catch(chk, F)
     progress.run(chk, F, CG)
     chk.assume("functions without a body in the facts (libstdc++, libxml2, libc) raise no UTAP::TypeException")
     chk.assume("bison error recovery only discards grammar symbols whose actions already ran (yacc semantics)")
